@@ -291,7 +291,7 @@ impl<'p> Gen<'p> {
             } else if self.rng.chance(self.p.nonacq_pct, 100) && !w.targets.is_empty() {
                 let tt = self.rng.below(w.targets.len());
                 let lim = self.rng.below(120) as u16;
-                let op = *self.rng.pick(&[NonAcqOp::Debug, NonAcqOp::DebugLimited(lim), NonAcqOp::Accessors, NonAcqOp::IsPoisoned, NonAcqOp::Construct]);
+                let op = *self.rng.pick(&[NonAcqOp::Debug, NonAcqOp::DebugLimited(lim), NonAcqOp::DebugPayloadErr, NonAcqOp::DebugPayloadPanic, NonAcqOp::Accessors, NonAcqOp::IsPoisoned, NonAcqOp::ClearPoison, NonAcqOp::ClearPoison, NonAcqOp::Construct]);
                 ops.push(BodyOp::NonAcq(op, tt));
             } else if nflat > 0 {
                 let i = self.rng.below(nflat);
@@ -339,7 +339,7 @@ impl<'p> Gen<'p> {
                 if self.rng.chance(self.p.nonacq_pct, 100) {
                     let tt = self.rng.below(w.targets.len());
                     let lim = self.rng.below(120) as u16;
-                let op = *self.rng.pick(&[NonAcqOp::Debug, NonAcqOp::DebugLimited(lim), NonAcqOp::Accessors, NonAcqOp::IsPoisoned, NonAcqOp::ClearPoison, NonAcqOp::Construct]);
+                let op = *self.rng.pick(&[NonAcqOp::Debug, NonAcqOp::DebugLimited(lim), NonAcqOp::DebugPayloadErr, NonAcqOp::DebugPayloadPanic, NonAcqOp::Accessors, NonAcqOp::IsPoisoned, NonAcqOp::ClearPoison, NonAcqOp::Construct]);
                     steps.push(Step::NonAcq(op, tt));
                 }
             }
@@ -392,10 +392,24 @@ pub fn generate(profile: &str, seed: u64) -> Scenario {
         "C11" => gen_panics(profile, seed, false),
         "C12" => gen_c12(seed),
         "C16" => gen_c16(seed),
-        "C03" | "C05" => {
+        "C03" => gen_c03(seed),
+        "C05" => {
             // release paths include the unwind of a panicking section
             let mut p = Params::base();
             p.panic_pct = 8;
+            if Rng::new(seed ^ 0x55).chance(1, 4) {
+                p.threads = (1, 1);
+                p.acqs = (3, 8);
+            }
+            gen_general(profile, seed, &p)
+        }
+        "C01" => {
+            // one thread alone is part of the statement: a quarter of the runs are sequential
+            let mut p = Params::base();
+            if Rng::new(seed ^ 0x11).chance(1, 4) {
+                p.threads = (1, 1);
+                p.acqs = (3, 8);
+            }
             gen_general(profile, seed, &p)
         }
         _ => gen_general(profile, seed, &Params::base()),
@@ -751,7 +765,7 @@ pub fn gen_quiescent(seed: u64, nonacq: bool) -> Scenario {
         let t = g.rng.below(nt);
         if nonacq {
             let (l1, l2) = (g.rng.below(150) as u16, g.rng.below(40) as u16);
-            let op = *g.rng.pick(&[NonAcqOp::Debug, NonAcqOp::DebugLimited(l1), NonAcqOp::DebugLimited(l2), NonAcqOp::IsPoisoned, NonAcqOp::ClearPoison, NonAcqOp::Accessors, NonAcqOp::Construct]);
+            let op = *g.rng.pick(&[NonAcqOp::Debug, NonAcqOp::DebugLimited(l1), NonAcqOp::DebugLimited(l2), NonAcqOp::DebugPayloadErr, NonAcqOp::DebugPayloadPanic, NonAcqOp::IsPoisoned, NonAcqOp::ClearPoison, NonAcqOp::Accessors, NonAcqOp::Construct]);
             let any_t = g.rng.below(w.targets.len());
             if g.rng.chance(1, 2) {
                 tester.push(Step::NonAcq(op, any_t));
@@ -817,7 +831,13 @@ pub fn gen_c12(seed: u64) -> Scenario {
         let t = g.rng.below(nt);
         let mut a = g.acq(&w, t);
         a.rebuild = false;
-        main_steps.push(Step::Acquire(a));
+        if g.rng.chance(15, 100) {
+            // the whole acquisition happens inside a destructor during an unrelated unwind
+            a.body.retain(|b| !matches!(b, BodyOp::Panic));
+            main_steps.push(Step::InUnwind(Box::new(Step::Acquire(a))));
+        } else {
+            main_steps.push(Step::Acquire(a));
+        }
         if g.rng.chance(15, 100) {
             // non-acquiring operations use raw try operations too (Debug of a lock)
             main_steps.push(Step::NonAcq(NonAcqOp::Debug, t));
@@ -997,7 +1017,12 @@ pub fn gen_c16(seed: u64) -> Scenario {
                 continue;
             }
             let mut a = g.acq(&w, t);
-            a.rebuild = false;
+            // a privately built collection is a local of the step: a panic in the section drops
+            // it during the unwind (only reference collections can be rebuilt)
+            a.rebuild = matches!(w.targets[t], TSpec::Coll { .. }) && g.rng.chance(1, 2);
+            if a.rebuild && g.rng.chance(2, 5) && !a.body.iter().any(|b| matches!(b, BodyOp::Panic)) {
+                a.body.push(BodyOp::Panic);
+            }
             // favour writes: the round trip must reflect them
             let nflat = w.flatten(&w.targets[t], None).len();
             if nflat > 0 && !a.api.is_read() {
@@ -1022,4 +1047,52 @@ pub fn gen_c16(seed: u64) -> Scenario {
     let mut cfg = g.cfg(60);
     cfg.faults.try_refuse_pct = 0;
     Scenario { world: w, program: Program { threads }, cfg, profile: "C16".into() }
+}
+
+/// C03: mostly single-thread histories over every API flavour (success, failure, poisoned
+/// results, panicking sections, unlock vs. drop), each key hand-back immediately followed by
+/// a re-acquisition of the very same target; the rest are the concurrent programs of C01
+pub fn gen_c03(seed: u64) -> Scenario {
+    let mut p = Params::base();
+    p.panic_pct = 10;
+    p.keyprobe_pct = 8;
+    let sequential = Rng::new(seed ^ 0x33).chance(2, 3);
+    if sequential {
+        p.threads = (1, 2);
+        p.acqs = (3, 8);
+    }
+    let mut g = Gen::new(seed, &p);
+    let mut w = g.world_base();
+    g.add_targets(&mut w);
+    let mut program = g.program(&w);
+    if sequential {
+        for th in program.threads.iter_mut() {
+            let mut out = Vec::new();
+            for st in th.drain(..) {
+                let again = match &st {
+                    Step::Acquire(a) if g.rng.chance(1, 2) => {
+                        let mut b = g.acq(&w, a.target);
+                        b.rebuild = a.rebuild;
+                        Some(Step::Acquire(b))
+                    }
+                    _ => None,
+                };
+                out.push(st);
+                if let Some(x) = again {
+                    out.push(x);
+                }
+            }
+            *th = out;
+        }
+        // a second thread in a sequential history only holds things the first one tries
+        if program.threads.len() == 2 {
+            for st in program.threads[1].iter_mut() {
+                if let Step::Acquire(a) = st {
+                    a.body.retain(|b| !matches!(b, BodyOp::Panic));
+                }
+            }
+        }
+    }
+    let cfg = g.cfg(80);
+    Scenario { world: w, program, cfg, profile: "C03".into() }
 }
